@@ -83,6 +83,9 @@ def cases(tier, seed):
             i += 1
     if gpgx.available():
         cs.append({'d': 'G', 'signers': ['ed25519_0', 'rsa2048_0', 'ecdsa_p256_0', 'dsa2048_0'] if tier == 'quick' else signers})
+        if tier != 'quick':
+            for s_ in signers:
+                cs.append({'d': 'G', 'signers': [s_]})
     return cs
 
 
